@@ -63,6 +63,7 @@ func init() {
 }
 
 func runC03(c *Ctx, r *Report) {
+	importFoundation(c, r, "C03", "client-hello")
 	r.Rule("C03/error-classes", "each failure site named by the property wraps the sentinel the property names (timeout / auth / connection / privilege / NETCONF / operation / platform error)", 1)
 	checkErrorClasses(c, r, "C03")
 	r.Rule("C03/framing", "serialize: payload, raw copy, 1.0 delimiter and 1.1 chunk framing with the byte length of the value that follows, on all 8 paths", 8)
